@@ -123,6 +123,15 @@ pub fn run_c16(ctx: &Ctx) -> i32 {
                         q.ep = None;
                         reps.push(q);
                     }
+                    // the same position reached by a longer or shorter history: the move
+                    // counters are not part of a position's identity
+                    let n_base = reps.len();
+                    for (half, full) in [(0u64, 1u64), (p.half + 7, p.full + 3), (40, 30), (99, 200)] {
+                        let mut q = p.clone();
+                        q.half = half;
+                        q.full = full;
+                        reps.push(q);
+                    }
                     for (ri, q) in reps.iter().enumerate() {
                         l.inc("book_position_lookups");
                         let got = offered(&book, q).unwrap_or_default();
@@ -132,7 +141,7 @@ pub fn run_c16(ctx: &Ctx) -> i32 {
                             ctx.violation(
                                 if !extra.is_empty() { "book-offers-unrecorded-move" } else { "book-misses-recorded-move" },
                                 q.fen(),
-                                json!({"fen": q.fen(), "representation": if ri == 0 { "as reached in the game" } else { "dead en-passant target dropped" }, "recorded": want.iter().map(|m| m.lan()).collect::<Vec<_>>(), "missing": missing, "extra": extra}),
+                                json!({"fen": q.fen(), "representation": if ri == 0 { "as reached in the game" } else if ri < n_base { "dead en-passant target dropped" } else { "other move counters (another history)" }, "recorded": want.iter().map(|m| m.lan()).collect::<Vec<_>>(), "missing": missing, "extra": extra}),
                             );
                             break;
                         }
@@ -209,7 +218,7 @@ pub fn run_c16(ctx: &Ctx) -> i32 {
         plies_total + ctx.get("lookups"),
         ctx.get("book_position_lookups") + ctx.get("lookups"),
         ctx.no_caps(),
-        "complete: every game of every file in /repo/book read by an independent PGN reader (games delimited by tag sections and result markers) and SAN reader (unique match required), first ten plies; for every position (identity: placement, side, rights, en-passant capture availability) the embedded book must return exactly the set of moves played there, also when a dead en-passant target is dropped; every castling-rights / side / en-passant variant of every book position, every position within depth 5 (thorough 6) of the start position and the castling / en-passant families: the book offers nothing or only legal moves, and nothing for positions that are not book positions",
+        "complete: every game of every file in /repo/book read by an independent PGN reader (games delimited by tag sections and result markers) and SAN reader (unique match required), first ten plies; for every position (identity: placement, side, rights, en-passant capture availability) the embedded book must return exactly the set of moves played there, also when a dead en-passant target is dropped and with four other settings of the move counters (another history); every castling-rights / side / en-passant variant of every book position, every position within depth 5 (thorough 6) of the start position and the castling / en-passant families: the book offers nothing or only legal moves, and nothing for positions that are not book positions",
         &["reference model (oracle crate): PGN reader, SAN reader, move generator"],
     )
 }
